@@ -40,6 +40,12 @@ func (e Env) srcMAC(r *rand.Rand) (refdec.MAC, string) {
 		return refdec.MAC{0x01, 0x00, 0x5e, 0, 0, 0xfb}, "mcast"
 	case 4:
 		return refdec.MAC{0xff, 0xff, 0xff, 0xff, 0xff, 0xff}, "bcast"
+	case 5:
+		if r.Intn(3) == 0 {
+			// addresses that look special and are ordinary unicast addresses by the table (group bit clear): all zero, locally
+			// administered, the 00:00:5e range of VRRP
+			return pick(r, refdec.MAC{}, refdec.MAC{0x02, 0, 0, 0, 0, 0}, refdec.MAC{0, 0, 0x5e, 0, 1, 7}, refdec.MAC{0xfe, 0xff, 0xff, 0xff, 0xff, 0xff}), "unicast-special"
+		}
 	}
 	return e.Clients[r.Intn(len(e.Clients))], "client"
 }
